@@ -157,6 +157,13 @@ CLAIMED = {
              'EVPN route type 5, IPv6 flowspec, SR-TE and BGP-LS NLRI are outside the property or not under contract; flowspec bitmask components (9, 12) not covered',
         ref='5 C07'),
 }
+FIX_COMMITS = []
+for _l in open(os.path.join(HERE, 'known_findings.jsonl')):
+    _l = _l.strip()
+    if _l and not _l.startswith('#'):
+        _d = json.loads(_l)
+        if _d.get('status') == 'fixed' and _d['commit'] not in FIX_COMMITS:
+            FIX_COMMITS.append(_d['commit'])
 checks = []
 for pid, c in CLAIMED.items():
     checks.append({
@@ -175,7 +182,7 @@ m = {
                  'kind_free_text': 'home-made contract verifier: symbolic execution of the real /repo AST per function against '
                                    'sidecar contracts, obligations discharged by z3 (cvc5 second back end), native replay under /venv/bin/python'}],
     'checks': checks,
-    'notes': 'fix: commits in /repo (see known_findings.jsonl): 392e84f af6fcf3 5c6aba0 718ac22 a1681d0 ba1e9fe a4d66e3 8bf02f8 8829df2 e0fadd6 c8e5ae4 f673f69 1fe7c6d 3df0c1a 136cffb 7b54f3f 458941b',
+    'notes': 'fix: commits in /repo (see known_findings.jsonl): ' + ' '.join(FIX_COMMITS),
     'not_applicable': [{'property_id': p['id'], 'reason': 'check not built yet (build in progress); see DESIGN.md section 5'}
                        for p in props if p['id'] not in CLAIMED],
 }
